@@ -245,11 +245,16 @@ func registerK8sIntrinsics(e *Engine) {
 		if m == nil {
 			panic(unsupported("jsonpath.Execute: writer without Write"))
 		}
-		if fr.i.jsonpathText[args[0].(*value)] == "" {
+		text := fr.i.jsonpathText[args[0].(*value)]
+		if text == "" {
 			return iface{} // an empty template prints nothing
 		}
+		out := `["stub"]`
+		if strings.Contains(text, "[*]") {
+			out = `[]` // a wildcard over an empty list (the harness supplies such a source object) matches nothing
+		}
 		var bs []value
-		for _, c := range []byte(`["stub"]`) {
+		for _, c := range []byte(out) {
 			bs = append(bs, c)
 		}
 		callSSA(i, nil, 0, m, []value{w.v, bs}, nil)
